@@ -5,6 +5,8 @@ import (
 	"fmt"
 	"io"
 	"log/slog"
+	"os"
+	"path/filepath"
 	"strconv"
 	"sync/atomic"
 	"testing"
@@ -235,17 +237,24 @@ func TestEnum_Lattice(t *testing.T) {
 // ---- CLI: error returned by ExecuteWithArgs <=> oracle --------------------------------
 
 type cliCase struct {
-	N           int    // users mode: max-iterations
+	N           int // users mode: max-iterations
 	Conc        int
-	FailEvery   int    // ids divisible by this fail (0 = none)
-	FailFirst   int    // ids <= this fail
+	FailEvery   int // ids divisible by this fail (0 = none)
+	FailFirst   int // ids <= this fail
 	MaxFailures uint64
 	MaxRate     int
 	Ignore      bool
 	Drops       bool // constant-mode shape in which drops are certain by construction
+	ViaFile     bool // the same users run described by a config file (limits mapped by `run file`)
 }
 
+var (
+	cliDir string
+	cliSeq atomic.Int64
+)
+
 func TestProp_CLIVerdict(t *testing.T) {
+	cliDir = t.TempDir()
 	rapid.Check(t, func(rt *rapid.T) {
 		c := cliCase{
 			N:           rapid.IntRange(1, 60).Draw(rt, "n"),
@@ -257,6 +266,7 @@ func TestProp_CLIVerdict(t *testing.T) {
 			Ignore:      rapid.Bool().Draw(rt, "ignore"),
 			Drops:       rapid.IntRange(0, 3).Draw(rt, "drops") == 0,
 		}
+		c.ViaFile = !c.Drops && rapid.IntRange(0, 2).Draw(rt, "viaFile") == 0
 		var passed, failed atomic.Uint64
 		planFail := func(id uint64) bool {
 			return (c.FailEvery > 0 && id%uint64(c.FailEvery) == 0) || id <= uint64(c.FailFirst)
@@ -286,13 +296,29 @@ func TestProp_CLIVerdict(t *testing.T) {
 			args = []string{"run", "users", "verif_cli", "-v", "--max-iterations", strconv.Itoa(c.N),
 				"--concurrency", strconv.Itoa(c.Conc), "--max-duration", "30s"}
 		}
-		if c.MaxFailures > 0 {
+		if c.ViaFile {
+			yaml := fmt.Sprintf("scenario: verif_cli\nlimits:\n  max-duration: 30s\n  concurrency: %d\n  max-iterations: %d\n  ignore-dropped: %v\n", c.Conc, c.N, c.Ignore)
+			if c.MaxFailures > 0 {
+				yaml += fmt.Sprintf("  max-failures: %d\n", c.MaxFailures)
+			}
+			if c.MaxRate > 0 {
+				yaml += fmt.Sprintf("  max-failures-rate: %d\n", c.MaxRate)
+			}
+			yaml += fmt.Sprintf("stages:\n- duration: 30s\n  mode: users\n  concurrency: %d\n", c.Conc)
+			path := filepath.Join(cliDir, fmt.Sprintf("cfg-%d.yaml", cliSeq.Add(1)))
+			if err := os.WriteFile(path, []byte(yaml), 0o600); err != nil {
+				rt.Fatalf("VERIF-INFRA: %v", err)
+			}
+			defer os.Remove(path)
+			args = []string{"run", "file", path, "-v"}
+		}
+		if c.MaxFailures > 0 && !c.ViaFile {
 			args = append(args, "--max-failures", strconv.FormatUint(c.MaxFailures, 10))
 		}
-		if c.MaxRate > 0 {
+		if c.MaxRate > 0 && !c.ViaFile {
 			args = append(args, "--max-failures-rate", strconv.Itoa(c.MaxRate))
 		}
-		if c.Ignore {
+		if c.Ignore && !c.ViaFile {
 			args = append(args, "--ignore-dropped")
 		}
 		err := app.ExecuteWithArgs(args)
@@ -303,7 +329,11 @@ func TestProp_CLIVerdict(t *testing.T) {
 				rt.Fatalf("VERIF-VIOLATION C08(cli): users run with max-iterations %d executed %d iterations", c.N, s+f)
 			}
 			want := oracle(vc)
-			stats.Case("cli", fmt.Sprintf("%+v", c), vc.nontrivial(), []string{"users"}, func() any { return c })
+			cl := []string{"users"}
+			if c.ViaFile {
+				cl = append(cl, "via-config-file")
+			}
+			stats.Case("cli", fmt.Sprintf("%+v", c), vc.nontrivial(), cl, func() any { return c })
 			if (err != nil) != want {
 				rt.Fatalf("VERIF-VIOLATION C08(cli): %+v -> %d passed %d failed: ExecuteWithArgs error=%v, documented rule says failed=%v", c, s, f, err, want)
 			}
